@@ -7,7 +7,7 @@
 From Coq Require Import List Bool Arith ZArith Reals Permutation Lra Lia.
 From CB Require Import Base.Hex Base.Vec3.
 From CB Require Import Model.C18_Finder Model.C18_RoundSpec Model.C18_Reorient.
-From CB Require Import Proofs.C18_Finder Proofs.C18_Reorient.
+From CB Require Import Proofs.C18_Finder Proofs.C18_Reorient Proofs.C18_Exact Proofs.C18_ExactAlign.
 From CB Require Import Gen.C18.Tables.
 Import ListNotations.
 
@@ -31,6 +31,15 @@ Definition C18_plane_stmt : Prop :=
 Definition C18_plane_invariant_stmt : Prop :=
   forall (tol : R) (vs : list vec) (o o' n v : vec) (k : R), n <> vzero -> k <> 0 -> dot (vsub o' o) n = 0 ->
     (In v (find_on_plane tol vs o' (vscale k n)) <-> In v (find_on_plane tol vs o n)).
+
+(** on binary64 inputs - integer mantissas at a unit u > 0 (positions, radius, TOL) resp. un > 0 (the
+    plane normal) - the real-valued models, square roots and divisions included, are decided by integer
+    arithmetic; this is what the correspondence evaluates on the implementation's inputs *)
+Definition C18_finders_decided_stmt : Prop :=
+  (forall (u : R) (p : zvec) (r : Z) (v : zvec), 0 < u ->
+     in_sphere_b (zR u p) (IZR r * u) (zR u v) = z_in_sphere p r v)
+  /\ (forall (u un : R) (T : Z) (o n v : zvec), 0 < u -> 0 < un -> (0 < T)%Z -> (0 < zdot n n)%Z ->
+     is_point_on_plane (IZR T * u) (zR u o) (zR un n) (zR u v) = z_on_plane T o n v).
 
 (** * 2. Round-shape finder *)
 Open Scope Z_scope.
@@ -115,6 +124,15 @@ Definition C18_right_handed_stmt : Prop :=
     /\ dot (N Front) (vsub observer center) = norm (vsub observer center)
     /\ 0 < dot (N Top) (vsub ceiling center).
 
+(** the order oracle: when the integer check [rank_check] succeeds on the mantissas of a case, then in
+    every round of the loop of [reorient] the two triangles the model takes have strictly larger
+    real-valued sort keys ([alignment], with its three normalisations) than every other remaining triangle -
+    so they are the two Python's sorted(...)[-2:] returns *)
+Definition C18_alignment_order_stmt : Prop :=
+  forall (u : R) (obs cei : zvec) (ps : list zvec) (hull : list tri) (rank : side -> list nat), 0 < u ->
+    rank_check obs cei ps hull rank = true ->
+    rank_consistentP (key_of u obs cei ps hull) rank normals_order (seq 0 12).
+
 (** the alignment heuristic groups the right triangles (full statement, NOT proved as a whole):
     [nrm t] is the oriented unit normal of hull triangle t, [face_of t] the geometric face it lies on *)
 Definition C18_grouping_stmt : Prop :=
@@ -153,6 +171,9 @@ Proof. exact find_on_plane_exact. Qed.
 
 Theorem C18_plane_invariant : C18_plane_invariant_stmt.
 Proof. exact (fun tol vs o o' n v k => find_on_plane_invariant tol vs o o' n v k). Qed.
+
+Theorem C18_finders_decided : C18_finders_decided_stmt.
+Proof. split; [exact z_in_sphere_exact|exact z_on_plane_exact]. Qed.
 
 Theorem C18_round_model_exact : C18_round_model_exact_stmt.
 Proof. exact round_model_exact. Qed.
@@ -211,6 +232,9 @@ Proof. exact numbering_independent. Qed.
 Theorem C18_right_handed : C18_right_handed_stmt.
 Proof. exact right_handed_frame. Qed.
 
+Theorem C18_alignment_order : C18_alignment_order_stmt.
+Proof. exact rank_check_sound. Qed.
+
 Theorem C18_grouping_partial : C18_grouping_partial_stmt.
 Proof. exact grouping_separation. Qed.
 
@@ -230,12 +254,21 @@ Example C18_grouping_partial_hyp_sat :
                                     | Left => (-1, 0, 0) | Right => (1, 0, 0) end)%R.
 Proof. exact example_orthoframe. Qed.
 
+Example C18_alignment_order_hyp_sat :
+  rank_check (0, -80, 4)%Z (4, 4, 80)%Z
+    [(0, 0, 0); (8, 0, 0); (8, 8, 0); (0, 8, 0); (0, 0, 8); (8, 0, 8); (8, 8, 8); (0, 8, 8)]%Z
+    [[0; 1; 5]; [0; 5; 4]; [3; 2; 6]; [3; 6; 7]; [4; 5; 6]; [4; 6; 7]; [0; 1; 2]; [0; 2; 3]; [0; 3; 7]; [0; 7; 4]; [1; 2; 6]; [1; 6; 5]]%nat
+    (rank_of [[2; 3; 4; 5; 6; 7; 8; 9; 10; 11; 0; 1]; [0; 1; 4; 5; 6; 7; 8; 9; 10; 11; 2; 3];
+              [6; 7; 8; 9; 10; 11; 4; 5]; [4; 5; 8; 9; 10; 11; 6; 7]; [10; 11; 8; 9]; [8; 9; 10; 11]]%nat) = true.
+Proof. vm_compute. reflexivity. Qed.
+
 Example C18_round_near_real_hyp_sat : (0 < powerRZ 2 (-76))%R /\ (0 < 7555786372591433)%Z.
 Proof. split; [apply powerRZ_lt; lra|reflexivity]. Qed.
 
 Print Assumptions C18_sphere.
 Print Assumptions C18_plane.
 Print Assumptions C18_plane_invariant.
+Print Assumptions C18_finders_decided.
 Print Assumptions C18_round_model_exact.
 Print Assumptions C18_round_near_real.
 Print Assumptions C18_core_shell.
@@ -245,4 +278,5 @@ Print Assumptions C18_canonical.
 Print Assumptions C18_same_points.
 Print Assumptions C18_numbering_independent.
 Print Assumptions C18_right_handed.
+Print Assumptions C18_alignment_order.
 Print Assumptions C18_grouping_partial.
